@@ -98,3 +98,14 @@ Definition args (a : action) : list arg :=
 Fixpoint tuple_eqb (l1 l2 : list arg) : bool :=
   match l1, l2 with [], [] => true | x :: r1, y :: r2 => arg_eqb x y && tuple_eqb r1 r2 | _, _ => false end.
 Definition py_eq (a b : action) : bool := same_kind a b && tuple_eqb (args a) (args b).
+
+(* __repr__, in the shape of the source: f"{type(self).__name__}({', '.join(strargs)})" with
+   strargs = tuple("sys.maxsize" if arg == sys.maxsize else repr(arg) for arg in self.args) *)
+Definition type_name (a : action) : string :=
+  match a with Forward _ _ _ _ _ => "Forward" | Reverse _ _ _ => "Reverse" | Copy _ _ _ => "Copy" | Move _ _ _ => "Move"
+             | EndForward => "EndForward" | EndReverse => "EndReverse" end%string.
+Definition st_name (s : storage) : string := match s with RAM => "RAM" | DISK => "DISK" | WORK => "WORK" | NONE => "NONE" end%string.
+Definition py_repr (x : arg) : string := match x with AZ z => z_dec z | AB b => b_repr b | AS s => st_repr s end.     (* repr(arg) *)
+Definition arg_eq_maxsize (x : arg) : bool := match x with AZ z => z =? maxsize | _ => false end.                       (* arg == sys.maxsize *)
+Fixpoint py_join (sep : string) (l : list string) : string :=
+  match l with [] => EmptyString | [x] => x | x :: r => (x ++ sep ++ py_join sep r)%string end.
